@@ -514,6 +514,12 @@ class ExprGen:
             return self.eq_comparable(b[1])
         if b[0] == "struct":
             return all(self.eq_comparable(t) for _, t in self.prog.structs[b[1]])
+        if b[0] == "enum":
+            return all(pl is None or self.eq_comparable(pl) for _, pl, _ in self.prog.enums[b[1]])
+        if b[0] == "opt":
+            return self.eq_comparable(b[1])
+        if b[0] == "err":
+            return self.eq_comparable(b[1]) and self.eq_comparable(b[2])
         return False
 
     def gen_aggeq(self, ctx, d):
@@ -559,14 +565,7 @@ class ExprGen:
         if k == "err":
             self.use("errunion")
             if rng.chance(1, 2):
-                inner = self.sum_inner(ctx, b[2], d1)
-                if inner.k == "lit" and inner.bare and self.is_int(inner.ty) and (abs(inner.val) >= (1 << 31) or inner.val == -(1 << (self.info(inner.ty)[0] - 1))):
-                    # recorded defect 'weak_lit_errunion': an untyped literal >= 2^31 (or the `-MAX - 1` spelling of MIN)
-                    # converted to an error union panics codegen / fails the cranelift verifier
-                    if self.weak_lit_errunion:
-                        self.use("weak_lit_errunion")
-                    else:
-                        strong(inner)
+                inner = self.gate_ok_literal(self.sum_inner(ctx, b[2], d1))
                 return N("wrap", how="ok", e=inner, ty=ty)
             return N("wrap", how="err", e=self.sum_inner(ctx, b[1], d1), ty=ty)
         if k == "ptr":
@@ -576,6 +575,16 @@ class ExprGen:
         if k == "fn":
             return self.gen_fnval(ctx, ty)
         raise AssertionError(ty)
+
+    def gate_ok_literal(self, inner):
+        """known finding C01-weak-literal-into-error-union: an untyped literal >= 2^31 (or the `-MAX - 1` spelling of MIN)
+        converted to an error union panics codegen / fails the cranelift verifier; only opted-in programs spell it so"""
+        if inner.k == "lit" and inner.bare and self.is_int(inner.ty) and (abs(inner.val) >= (1 << 31) or inner.val == -(1 << (self.info(inner.ty)[0] - 1))):
+            if self.weak_lit_errunion:
+                self.use("weak_lit_errunion")
+            else:
+                strong(inner)
+        return inner
 
     def sum_inner(self, ctx, ty, d):
         """payload of an optional / error union: an enum payload is first bound to a local of the ENUM type
